@@ -200,6 +200,12 @@ func (u *universe) makeInvalid(base *types.Block, kind string) *types.Block {
 // extension returns the "one further valid block": a valid child of the ancestor `depth`
 // blocks below head (head must be a valid block of the universe).
 func (u *universe) extension(head *types.Block, depth int) *types.Block {
+	if u.f.Name() == "ucon" {
+		// Under the BFT engine a valid block at an already decided height cannot exist in an
+		// honest-majority network and is by design never adopted (ErrExistCanonical / "Importing
+		// sidechain terminate"); the "one further valid block" of the statement is a child of the head.
+		depth = 0
+	}
 	i := u.vindex[head.Hash()]
 	for d := mod(depth, int(head.NumberU64())+1); d > 0 && i > 0; d-- {
 		i = u.parent[i]
